@@ -331,7 +331,7 @@ func vfc06Check(c *vfc06Case, res vfc06Result) (fp, what string) {
 func TestVF_C06(t *testing.T) {
 	r := vfkit.Start(t, "C06")
 	defer r.Finish()
-	r.Rule("enumeration: 1..3 stores (thorough: plus 4 stores and 150 seeded random layouts with PRNG delays) streaming <=4 single-series frames with overlapping label sets; every non-empty subset of stores failing; " +
+	r.Rule("enumeration: 1..3 stores (thorough: plus 4 stores and 100 seeded random layouts with PRNG delays) streaming <=4 single-series frames with overlapping label sets; every non-empty subset of stores failing; " +
 		"failure point in {Series() open error, Recv error after k=0..n frames, Recv blocks after k=0..n frames until the 30ms frame timeout cancels the stream} (all points when one store fails, " +
 		"{open, recv@0, recv@mid, recv@n, block@0} per store when several fail) x strategy {ABORT, WARN, PartialResponseDisabled} x {eager, lazy buf 1, lazy buf 20} x frame timer {off, 5s} ; " +
 		"oracle on the error/warnings/series returned by the real ProxyStore.Series: abort/disabled => error; warn => nil error, >=1 warning naming every store observed to fail, every series+chunk of every store not observed to fail; " +
@@ -347,7 +347,7 @@ func TestVF_C06(t *testing.T) {
 	if r.Thorough() {
 		l := vfc06FixedLayout([]int{2, 3, 2, 1})
 		cases = append(cases, vfc06Expand(l, vfc06FaultVectors(l), false)...)
-		for k := 0; k < 150; k++ {
+		for k := 0; k < 100; k++ {
 			rng := r.RandS("layout", k)
 			l := vfc06RandLayout(rng, 1+rng.Intn(3))
 			cases = append(cases, vfc06Expand(l, vfc06FaultVectors(l), true)...)
